@@ -523,6 +523,43 @@ def _far_from_tie(a, b, box, n=(0, 0, 0)):
     return bool(np.all(np.abs(np.abs(f - np.round(f)) - 0.5) > 1e-4))
 
 
+def task_numeric_int_boxes(tier, seed):
+    """Integer-valued boxes handed over in the forms a caller may use: an integer numpy array (np.diag([5, 6, 7])), a nested list of ints,
+    a float array -- the result must be the same minimum-image distance (the function may not compute in the box's integer type)."""
+    from gaddlemaps.components import AtomGro, Residue
+    rng = np.random.default_rng(191 + seed)
+    N = 40 if tier == "quick" else 400
+    first, nbad, nev = None, 0, 0
+    for t in range(N):
+        L = [int(x) for x in rng.integers(2, 15, 3)]
+        a = rng.uniform(-1, 1, 3) * np.array(L)
+        b = a + rng.uniform(-2.6, 2.6, 3) * np.array(L)
+        fbox = np.diag([float(x) for x in L])
+        if not _far_from_tie(a, b, fbox):
+            continue
+        want = brute_min_image(a, b, fbox)
+        forms = {"int ndarray": np.diag(L), "nested list of ints": [[L[0], 0, 0], [0, L[1], 0], [0, 0, L[2]]], "float ndarray": fbox,
+                 "int64 array, points as lists": np.array(np.diag(L), dtype=np.int64)}
+        for name, box in forms.items():
+            res = Residue([AtomGro([1, "RES", "A", 1] + [float(x) for x in a])])
+            try:
+                got = float(res.distance_to(np.array(b) if "lists" not in name else list(map(float, b)), box_vects=box))
+            except Exception as e:      # noqa
+                got = None
+                msg = f"box given as {name}: raises {type(e).__name__}: {e}"
+            nev += 1
+            if got is None or abs(got - want) > 1e-9 * max(1.0, max(L), float(np.abs(b - a).max())):
+                nbad += 1
+                if first is None:
+                    first = (msg if got is None else f"box {L} given as {name}: distance {got!r}, minimum over images {want!r}",
+                             {"mode": "int-box", "seed": seed, "tier": tier, "signature": "int-box"})
+    oid = f"{PROP}/distance_to/bounded.integer-valued-boxes-as-int-arrays-and-lists"
+    if first:
+        return [ob(oid, "refuted", kind="bounded", engine="smallscope", backend="numeric-contract", evaluations=nev,
+                   reason=f"{nbad}/{nev} evaluations violate; first: {first[0]}", cex=first[1])]
+    return [ob(oid, "discharged", kind="bounded", engine="smallscope", backend="numeric-contract", evaluations=nev, sample={"cases": N})]
+
+
 def task_numeric_reuse(tier, seed):
     """The same Residue objects used for several distances with their atoms moved in between -- through the residue-level setter, through a
     live atom view (res[i].position = p), by Residue.move: every distance must be the minimum-image distance of the ACTUAL centres."""
@@ -665,12 +702,13 @@ def tasks(prop, tier, seed):
         ("distance_to/invflag", task_invflag, (seed,), lim),
         ("distance_to/numeric", task_numeric, (tier, seed), lim),
         ("distance_to/numeric-reuse", task_numeric_reuse, (tier, seed), lim),
+        ("distance_to/numeric-int-boxes", task_numeric_int_boxes, (tier, seed), lim),
     ]
 
 
 def replay(prop, cex):
-    if cex.get("mode") == "reuse":
-        r = task_numeric_reuse(cex.get("tier", "quick"), cex.get("seed", 0))
+    if cex.get("mode") in ("reuse", "int-box"):
+        r = (task_numeric_reuse if cex["mode"] == "reuse" else task_numeric_int_boxes)(cex.get("tier", "quick"), cex.get("seed", 0))
         bad = [o for o in r if o.get("status") == "refuted"]
         return {"reproduced": bool(bad), "observed": bad[0].get("reason") if bad else None,
                 "expected": "every distance is the minimum-image distance of the residues' actual centres", "inputs": cex}
